@@ -21,6 +21,10 @@ generated classes and named constants).
                 and pytype reports nothing on the line.  Every other failing
                 statement that pytype leaves unflagged is only counted.
 
+Every false alarm / miss is confirmed by analysing the statement again in a
+module of its own; one that does not reproduce alone is reported as
+`context-dependent|<verdict>|<kind>` (with the module as witness).
+
 Mechanism keys: verdict|kind|operator|operand classes; for attribute loads and
 method calls verdict|kind|<owner skeleton>.<attribute name> with owner skeleton
 in builtin-instance, builtin-object (len, int), user-instance,
@@ -30,6 +34,7 @@ from __future__ import annotations
 
 import collections
 import random
+import signal
 import warnings
 
 from vf import common, pool
@@ -154,18 +159,40 @@ def runtime_namespace():
   return ns
 
 
-def run_alone(expr):
-  """Evaluates expr alone under CPython. -> (outcome, exception class, message)"""
+class _EvalTimeout(Exception):
+  pass
+
+
+def _on_alarm(signum, frame):
+  raise _EvalTimeout()
+
+
+def run_alone(expr, limit=0.5):
+  """Evaluates expr alone under CPython. -> (outcome, exception class, message)
+
+  A statement that does not finish within `limit` seconds of CPU time (`'a' in GetItem()`
+  iterates __getitem__ forever) is not judged.
+  """
   ns = runtime_namespace()
-  with warnings.catch_warnings():
-    warnings.simplefilter("ignore")
-    try:
-      eval(compile(expr, "<stmt>", "eval"), ns)  # pylint: disable=eval-used
-    except (TypeError, AttributeError) as e:
-      return "fails", type(e).__name__, str(e)[:200]
-    except Exception as e:  # pylint: disable=broad-except
-      return "other", type(e).__name__, str(e)[:200]
-  return "clean", None, None
+  old = signal.signal(signal.SIGVTALRM, _on_alarm)
+  try:
+    with warnings.catch_warnings():
+      warnings.simplefilter("ignore")
+      code = compile(expr, "<stmt>", "eval")
+      signal.setitimer(signal.ITIMER_VIRTUAL, limit)
+      try:
+        eval(code, ns)  # pylint: disable=eval-used
+      except (TypeError, AttributeError) as e:
+        return "fails", type(e).__name__, str(e)[:200]
+      except _EvalTimeout:
+        return "other", "Timeout", f"no result within {limit}s"
+      except Exception as e:  # pylint: disable=broad-except
+        return "other", type(e).__name__, str(e)[:200]
+      finally:
+        signal.setitimer(signal.ITIMER_VIRTUAL, 0)
+    return "clean", None, None
+  finally:
+    signal.signal(signal.SIGVTALRM, old)
 
 
 def advertised(s, exc, msg):
@@ -251,6 +278,16 @@ def child(arg):
           "strays": strays}
 
 
+def child_isolated(arg):
+  """Each statement in a module of its own (prelude + one line)."""
+  out = []
+  for s in arg["stmts"]:
+    results, _ = judge_module([s])
+    v, exc, msg, errs = results[0]
+    out.append({"expr": s["expr"], "verdict": v, "pytype": [[n, m[:200]] for n, m in errs]})
+  return {"stmts": out}
+
+
 # ---------------------------------------------------------------------------
 # parent side
 
@@ -276,6 +313,8 @@ def run(tier, seed):
                   "arg": {"stmts": stmts[k:k + per_child], "module_lines": MODULE_LINES}})
   outside = collections.Counter()
   judged = 0
+  pending = []
+  batches = {t["id"]: t["arg"]["stmts"] for t in tasks}
   for res in pool.run_tasks(tasks):
     if not res.get("ok"):
       ck.child_failed(res, f"batch {res.get('task')}")
@@ -299,9 +338,40 @@ def run(tier, seed):
     if r["strays"]:
       ck.inconclusive(f"pytype reported errors in the prelude: {r['strays'][:3]}")
     for w in r["violations"]:
-      key = w.pop("key")
-      w["program"] = build_module([w["stmt"]])[0]
-      ck.violation(key, w)
+      w["module"] = res.get("task")
+      pending.append(w)
+  # phase 2: every disagreeing statement again, in a module of its own
+  alone = {}
+  if pending:
+    todo = sorted({w["stmt"]["expr"]: w["stmt"] for w in pending}.values(), key=lambda s: s["expr"])
+    n2 = min(16, len(todo))
+    per2 = (len(todo) + n2 - 1) // n2
+    tasks2 = [{"fn": "vf.checks.c14:child_isolated", "id": f"iso{b}", "timeout": 7200,
+               "arg": {"stmts": todo[k:k + per2]}}
+              for b, k in enumerate(range(0, len(todo), per2))]
+    for res in pool.run_tasks(tasks2):
+      if not res.get("ok"):
+        ck.child_failed(res, f"isolation batch {res.get('task')}")
+        continue
+      for d in res["result"]["stmts"]:
+        alone[d["expr"]] = d
+  for w in sorted(pending, key=lambda w: w["stmt"]["expr"]):
+    key = w.pop("key")
+    a = alone.get(w["stmt"]["expr"])
+    verdict = key.split("|", 1)[0]
+    if a is None:
+      ck.inconclusive(f"no isolated re-run for {w['stmt']['expr']}")
+      continue
+    if a["verdict"] != verdict:
+      # pytype's report for this line depends on the other lines of the module
+      ck.count("context_dependent_" + verdict)
+      w["verdict_alone"] = a
+      w["module_stmts"] = batches.get(w.pop("module"), [])
+      ck.violation(f"context-dependent|{verdict}|{w['stmt']['kind']}", w)
+      continue
+    w.pop("module", None)
+    w["program"] = build_module([w["stmt"]])[0]
+    ck.violation(key, w)
   ck.count("statements_generated", len(stmts))
   ck.count("modules", nmod)
   ck.extra["unflagged_failures_outside_converse_clause"] = {
@@ -322,6 +392,22 @@ def run(tier, seed):
 def replay(rec):
   w = rec["witness"]
   s = w["stmt"]
+  if str(rec.get("key", "")).startswith("context-dependent"):
+    ms = w.get("module_stmts") or []
+    idx = [i for i, t in enumerate(ms) if t["expr"] == s["expr"]]
+    if not idx:
+      print("witness without its module: re-run the check with the same seed")
+      return 2
+    results, _ = judge_module(ms)
+    v = results[idx[0]][0]
+    va = judge_module([s])[0][0][0]
+    print({"stmt": s["expr"], "verdict_in_module": v, "verdict_alone": va})
+    if v in ("false-alarm", "miss") and rec.get("key") not in common.load_known(PID):
+      print(f"VIOLATION property={PID} replay=<replayed>")
+      print(f"  mechanism: {rec.get('key')}")
+      return 1
+    print("replay: no (unlisted) disagreement")
+    return 0
   results, _ = judge_module([s])
   v, exc, msg, errs = results[0]
   print({"stmt": s["expr"], "cpython": [exc, msg], "pytype": errs, "verdict": v})
